@@ -1074,6 +1074,10 @@ def oC02 (st st' : OState) (v : OpView) (c : Ctx) : OState × List String :=
               | none => (setBf none false, [])
             | _ => (setBf none false, [])
           else if c.op == "flush" || c.op == "dropf" then
+            -- an injected storage error: the flush did not happen, what the handle holds is unchanged
+            if !c.ok && v.io.fault.isSome && c.rk == "err1" then (setBf (some b) fs.truncated, []) else
+            -- a storage error inside the destructor is swallowed by design: what reached the device is not known
+            if c.ok && v.io.fault.isSome then (setBf none false, []) else
             if !c.ok then (setBf none false, []) else
             match fileImageContent g imgO fs.path with
             | some l =>
@@ -1082,6 +1086,10 @@ def oC02 (st st' : OState) (v : OpView) (c : Ctx) : OState × List String :=
                 let sig := if fs.truncated then "truncate-content" else "write-count"
                 (setBf none false, [s!"C02 {sig} {tag} after {c.op} the image holds {l.length} bytes, the byte-array specification {b.content.length}{if l.length == b.content.length then " (different bytes)" else ""}"])
             | none => (setBf (some b) fs.truncated, [])
+          else if (c.op == "write" || c.op == "read") && v.io.fault.isSome && c.rk == "err1" then
+            -- ONE `write`/`read` call that ends in the injected storage error: the simulated device fails the call
+            -- before transferring anything, the cursor only moves after a successful transfer: nothing changes
+            (setBf (some b) fs.truncated, [])
           else if isFileOp c.op && !["extents", "set_created", "set_modified", "set_accessed"].contains c.op then
             match cursorOp g v c b with
             | none => (setBf none false, [])
